@@ -232,6 +232,7 @@ package libaudit
 //@ ensures[C10] msg != nil && len(r.list.seqs) > 0 ==> !r.list.events[r.list.seqs[0]].complete
 //@ ensures[C19] msg != nil && len(r.list.seqs) > 0 ==> !(clock() > r.list.events[r.list.seqs[0]].expireTime)
 //@ ensures[C11] !held(r.list.Mutex)
+//@ ensures[C01,C11] envlen() - old(envlen()) >= old(len(r.list.seqs)) - len(r.list.seqs)
 //
 //@ func (*libaudit.Reassembler).Maintain
 //@ lockfree[C11] r.list.Mutex
@@ -241,6 +242,12 @@ package libaudit
 //@ ensures[C19] old(r.closed) != 1 ==> result0 == nil && Base(r.list)
 //@ ensures[C19] old(r.closed) != 1 && len(r.list.seqs) > 0 ==> !(clock() > r.list.events[r.list.seqs[0]].expireTime) && !r.list.events[r.list.seqs[0]].complete
 //@ ensures[C11] !held(r.list.Mutex)
+// These two also hold when other goroutines change r.closed between this
+// goroutine's atomic accesses (unit run with "interfere"): an operation that
+// reports an error has taken nothing out of the list and delivered nothing, and
+// every event taken out by a successful one was handed to the stream.
+//@ ensures[C01,C11] result0 != nil ==> len(r.list.seqs) == old(len(r.list.seqs)) && envlen() == old(envlen())
+//@ ensures[C01,C11] result0 == nil ==> envlen() - old(envlen()) >= old(len(r.list.seqs)) - len(r.list.seqs)
 //
 //@ func (*libaudit.Reassembler).Close
 //@ lockfree[C11] r.list.Mutex
@@ -249,6 +256,8 @@ package libaudit
 //@ ensures[C19] old(r.closed) == 0 ==> result0 == nil && r.closed == 1 && len(r.list.seqs) == 0 && envlen() >= old(envlen()) + old(len(r.list.seqs))
 //@ ensures[C19] old(r.closed) != 0 ==> result0 != nil && r.closed == old(r.closed) && envlen() == old(envlen()) && len(r.list.seqs) == old(len(r.list.seqs))
 //@ ensures[C11] !held(r.list.Mutex)
+//@ ensures[C01,C11] result0 != nil ==> len(r.list.seqs) == old(len(r.list.seqs)) && envlen() == old(envlen())
+//@ ensures[C01,C11] result0 == nil ==> len(r.list.seqs) == 0 && envlen() - old(envlen()) >= old(len(r.list.seqs))
 //
 // Push parses and then pushes; a record whose header does not parse is not pushed.
 //@ func (*libaudit.Reassembler).Push
